@@ -3,6 +3,8 @@ import LunarVerif.Spec.C18
 import LunarVerif.Spec.C18Sharing
 import LunarVerif.Spec.C18Expire
 import LunarVerif.Spec.C18Vacuum
+import LunarVerif.Model.C18Observe
+import LunarVerif.Spec.C18Observe
 /-! Driver for C18.
   `access s=<struct> f=<field> fn=<func> w=<0|1> locks=<name:x|r,...|-> atomic=<0|1> init=<0|1>`
      one extracted access fact (a case = all facts of one field); answer `ok`.
@@ -60,6 +62,19 @@ structure RunSt where
   tctx : TCtx := fresh
   ex : Expire.St := {}
   vx : Vacuum.St := {}
+  ob : Option (Observe.Cfg × C01.Lvl) := none
+
+/-- instant of an observe op: `t` ms after 1 700 000 000 s, in ns -/
+def obsNs (ms : Nat) : Nat := (1700000000000 + ms) * 1000000
+
+/-- `oinc r= t=` | `oallow r= t=` | `odec r= t=` | `oread t=` -/
+def parseO (ws : List String) : Option Observe.Op :=
+  match ws with
+  | "oinc" :: r => do pure (.inc (← kvNat r "r") (obsNs (← kvNat r "t")))
+  | "oallow" :: r => do let _ ← kvNat r "t"; pure (.allowed (← kvNat r "r"))
+  | "odec" :: r => do let _ ← kvNat r "t"; pure (.dec (← kvNat r "r"))
+  | "oread" :: r => do let _ ← kvNat r "t"; pure .read
+  | _ => none
 
 def sortStrs (l : List String) : List String := (l.toArray.qsort (· < ·)).toList
 
@@ -114,6 +129,19 @@ def runStep (s : RunSt) (line : String) : RunSt × String :=
     match vStep s.vx (words line) with
     | some v => ({ s with vx := v }, "map=" ++ fmtKeys (sortStrs v.map))
     | none => (s, "bad-op")
+  | "ocfg" :: r =>
+    match s.ob, kvNat r "max", kvNat r "win" with
+    | none, some mx, some w =>
+      if mx ≥ 1 ∧ w ≥ 1 then ({ s with ob := some (⟨mx, w * C01.nsPerSec⟩, C01.Lvl.init) }, "ok") else (s, "bad-op")
+    | _, _, _ => (s, "bad-op")
+  | "oinc" :: _ | "oallow" :: _ | "odec" :: _ | "oread" :: _ =>
+    match s.ob, parseO (words line) with
+    | some (c, l), some op =>
+      let r := Observe.step c l op
+      -- a transaction's call is answered `<with reads>/<without reads>`: by `metrics_reads_transparent` the two agree
+      let a := if op.isRead then r.2.fmt else r.2.fmt ++ "/" ++ r.2.fmt
+      ({ s with ob := some (c, r.1) }, a)
+    | _, _ => (s, "bad-op")
   | "retain" :: _ => (s, "stable")          -- a lookup's answer is a value: later lookups cannot change it
   | "retain-conc" :: _ => (s, "stable")
   | "overlap" :: _ => (s, "held=same inner=same")   -- a transaction's actions are a function of the transaction and the loaded flows
@@ -172,6 +200,8 @@ def judgeStep (s : JudgeSt) (op out : String) : JudgeSt :=
         else { s with bad := some ("registered-key-never-vacuumed:" ++ pctEnc out) }
       else { s with bad := some ("unparsable-vacuum-answer:" ++ pctEnc out) }
     | none => { s with bad := some "unparsable-vacuum-op" }
+  | "oinc" :: _ | "oallow" :: _ | "odec" :: _ =>
+    if Observe.agrees out then s else { s with bad := some ("metrics-read-changed-a-transactions-answer:" ++ pctEnc out) }
   | "overlap" :: _ => if out == "held=same inner=same" then s else { s with bad := some ("transaction-left-with-another-transactions-actions:" ++ pctEnc out) }
   | "retain-conc" :: _ => if out == "stable" then s else { s with bad := some ("lookup-answer-changed-by-another-transaction:" ++ pctEnc out) }
   | "retain" :: _ => if out == "stable" then s else { s with bad := some ("lookup-answer-changed-by-another-transaction:" ++ pctEnc out) }
